@@ -400,12 +400,6 @@ STRUCTURAL = ('copy', 'transpose', 'reversed', 'getitem', 'reshape', 'flatten', 
 def finding_signature(case, vec=None):
     """which catalogued behaviour (if any) this input exercises; computed from the input only"""
     op, g = case['op'], case['args']
-    if op == 'dot':
-        (r0, c0, b0, mb0), (r1, c1, b1, mb1) = case['ops'][0], case['ops'][1]
-        vectors = (1 in (r0, c0)) and (1 in (r1, c1)) and (r0, c0) != (1, 1) and (r1, c1) != (1, 1)
-        if vectors and capb(b0, mb0) + capb(b1, mb1) > mb0:
-            # inner product = sum() of element-wise products that were already capped to max_bits
-            return 'dot:inner-product-sums-capped-products'
     return None
 
 
